@@ -210,9 +210,17 @@ def find_item(src: str, path: str):
         if " for " in tpart:
             trait, tpart = [s.strip() for s in tpart.split(" for ", 1)]
         tpart = tpart.strip()
-        for header, lo, hi, impl_pos in _impl_blocks(src, msk):
-            if not _header_matches(header, tpart, trait):
-                continue
+        blocks = []
+        if tpart.startswith("trait "):
+            # default method bodies inside `trait Name { .. }`
+            tname = tpart[6:].strip()
+            for mt in top_level_positions(msk, 0, len(msk), r"\btrait\s+%s\b" % re.escape(tname)):
+                ob = find_body_open(msk, mt.end())
+                if ob >= 0:
+                    blocks.append(("trait " + tname, ob + 1, match_close(msk, ob), mt.start()))
+        else:
+            blocks = [b for b in _impl_blocks(src, msk) if _header_matches(b[0], tpart, trait)]
+        for header, lo, hi, impl_pos in blocks:
             for mt in top_level_positions(msk, lo, hi, r"\bfn\s+%s\b" % re.escape(name)):
                 found.append(("fn", name, mt.start(), header, lo, hi))
     if len(found) <= pick:
